@@ -3,6 +3,7 @@
   twice, scoped, ctxops, term, nopanic.  One case format for all of them.
 -/
 import TephraModel.Run
+import TephraModel.Report
 
 namespace Tephra.Fam.RunF
 open Tephra Tephra.Wire
@@ -67,13 +68,28 @@ def showRes (R : RunEnv) : RRes → String
   | .panic => "panic"
   | .fuel => "timeout"
 
+/-- the first returned error of the case (the first result that is an `err:`) -/
+def firstErr : List RRes → Option PErr
+  | [] => none
+  | .err e :: _ => some e
+  | _ :: rest => firstErr rest
+
+/-- the plain rendering of the source report of an error (code points), `-` if there is none -/
+def showReport (c : Case) : Option PErr → String
+  | none => "-"
+  | some e =>
+    match Report.renderError ⟨c.text, c.m, Pos.zero⟩ Report.harnessEnv e with
+    | .ok s => Report.encode s
+    | .panic => "panic"
+
 def showOutcome (c : Case) (o : Outcome) : String :=
   let R : RunEnv := ⟨lexEnv c.cfg c.text, c.text⟩
   if o.results.any (fun r => match r with | .panic => true | _ => false) then "panic"
   else if o.results.any (fun r => match r with | .fuel => true | _ => false) then "timeout"
   else
     "&".intercalate (o.results.map (showRes R)) ++ "|sink=[" ++ ",".intercalate (o.world.log.map GWire.showErr) ++
-    "]|probes=[" ++ "~".intercalate o.world.probes ++ "]|fmtpanics=0"
+    "]|probes=[" ++ "~".intercalate o.world.probes ++ "]|fmtpanics=0|report=" ++ showReport c (firstErr o.results) ++
+    "|sinkreport=" ++ showReport c o.world.log.head?
 
 /-- Oracles are added per family in Fam/Oracles.lean; here: correspondence only. -/
 def run (fields : List String) : String × String :=
